@@ -33,6 +33,8 @@ def o_leak(case, out):
 def o_spec(case, out):
     """the documented sequence semantics (vlib/pyspec.py) evaluated on the implementation trace"""
     from . import pyspec
+    if case and case[0].split()[-1] == "u":
+        return []
     return pyspec.check_case(case, out, Line)
 
 
@@ -411,6 +413,14 @@ def cases_C10(tier, seed):
                 for sc in gen.scripts('FB', min(b - a + 1, 4)):
                     for f in follow:
                         cases.append(pre + [f"drain i{a} x{b} {sc} forget", "len"] + f)
+    # element type without a destructor (mem::needs_drop is false)
+    for n, st, sz in all_layouts((1, 2, 3)):
+        pre = layout_prefix(n, st, sz, kind='p')
+        for a in range(sz + 1):
+            for b in range(a, sz + 1):
+                for sc in gen.scripts('FB', min(b - a + 1, 3)):
+                    cases.append(pre + [f"drain i{a} x{b} {sc} forget", "len", "push_back 50", "pop_front", "drop"])
+                    cases.append(pre + [f"drain i{a} x{b} {sc} drop", "len", "drop"])
     return cases
 
 
@@ -438,6 +448,18 @@ def cases_C11(tier, seed):
                 f"extend {n}", f"extend_from_slice {n}", f"extend {2*n+1}", f"extend_from_slice {2*n+1}"]
         for op in ops:
             cases.append(pre + [op, "len", "drop"])
+    # completely full buffers of zero-sized elements at the extreme capacities
+    for n in ZST_NS[3:]:
+        pre = [f"case {n} u", "fill_all"]
+        ops = [f"range u i{MAX} F", f"range_mut u i{MAX} F", f"drain u i{MAX} F drop", f"range x{MAX} u F",
+               f"drain x{MAX} u - drop", f"range i{MAX} i{MAX} F", "range i0 x5 FBL", "range u u FBL",
+               f"range i{n-1} u FBL", f"range i{n} u FBL", f"range i{n} x{n-1} F", f"drain i{n} x{n-1} F drop",
+               f"get {MAX}", f"get {n-1}", f"get {n}", "nth_back 0", f"nth_back {n-1}", f"nth_back {n}",
+               f"index {n-1}", f"index {n}", f"swap 0 {n-1}", f"swap 0 {n}", f"swap {n} 0", "pop_back",
+               "pop_front", "push_back 0", "push_front 0", "try_push_back 0", f"remove {n}", f"remove {n-1}",
+               f"swap_remove_back {n-1}", f"swap_remove_front {n-1}", "front", "back", "len"]
+        for op in ops:
+            cases.append(pre + [op, "len"])
     return cases
 
 
@@ -573,3 +595,58 @@ def cases_C20(tier, seed):
         for op in ops:
             cases.append(pre + [op, "len"])
     return cases
+
+
+# ----------------------------------------------------------------------------- C16 / C17 / C18
+
+def cases_C16(tier, seed):
+    return cases_io(tier, seed)
+
+
+def cases_C17(tier, seed):
+    """the non-panicking calls of C01/C07/C08/C12 with the allocation column"""
+    cs = cases_C01(tier, seed)[::2] + cases_C07(tier, seed)[::2] + cases_C08(tier, seed)[::4] + cases_C12(tier, seed)
+    cs += [c for c in cases_io(tier, seed)[::3]]
+    return cs
+
+
+def cases_C18(tier, seed):
+    cs = []
+    for f in (cases_C01, cases_C02, cases_C03, cases_C05, cases_C06, cases_C07, cases_C08, cases_C09,
+              cases_C10, cases_C11, cases_C12, cases_C13):
+        cs += f(tier, seed)
+    cs += cases_C04(tier, seed)[::5]
+    return cs
+
+
+def build_checks_C17():
+    """the crate must build without std and without an allocator; only boxed()/to_vec() may name Box/Vec"""
+    import subprocess, os, re
+    from .engine import REPO, WORK
+    problems, notes = [], []
+    for feats in (["--no-default-features"], ["--no-default-features", "--features", "alloc"], []):
+        tdir = os.path.join(WORK, "c17-target")
+        p = subprocess.run(["cargo", "build", "--offline", "--quiet", "--lib"] + feats, cwd=REPO,
+                           env=dict(os.environ, CARGO_TARGET_DIR=tdir, CARGO_NET_OFFLINE="true"),
+                           capture_output=True, text=True)
+        notes.append(f"cargo build {' '.join(feats) or '(default features)'}: rc={p.returncode}")
+        if p.returncode != 0:
+            problems.append(f"`cargo build --lib {' '.join(feats)}` fails: " + p.stderr.strip()[-600:])
+    # source scan: heap types may only be named inside boxed()/to_vec() (and the cfg(alloc) imports)
+    for fn in ("lib.rs", "iter.rs", "drain.rs"):
+        src = open(os.path.join(REPO, "src", fn)).read()
+        src = re.sub(r"//[^\n]*", "", src)
+        # split into fn bodies
+        for m in re.finditer(r"fn\s+(\w+)[^{;]*\{", src):
+            name = m.group(1)
+            i = m.end(); depth = 1
+            while depth and i < len(src):
+                depth += (src[i] == "{") - (src[i] == "}")
+                i += 1
+            body = src[m.end():i]
+            if re.search(r"\b(Box|Vec|String|Rc|Arc|BTreeMap|VecDeque|to_vec|to_owned|collect::<Vec)\b", body) and name not in ("boxed", "to_vec"):
+                if fn == "lib.rs" and name in ("main",):
+                    continue
+                problems.append(f"src/{fn}: fn {name} names a heap type / allocating call")
+    notes.append("source scan: heap types named only in boxed()/to_vec()")
+    return problems, "; ".join(notes)
